@@ -307,6 +307,8 @@ class AbstractOnlineSpecification(AbstractSpecification):
     def pastify(self):
         # in discrete time the bounds have to be multiples of the sampling period
         self.pastifier.discrete_time = isinstance(self.online_interpreter, DiscreteTimeInterpreter)
+        # next/s_next exist only under the discrete-time interpretation
+        self.pastifier.dense_time = isinstance(self.online_interpreter, AbstractDenseTimeOnlineInterpreter)
         self.ast = self.pastifier.pastify(self.ast)
 
     # forwarding to interpreter
